@@ -185,6 +185,23 @@ def run(chk):
         if be[0] == "Ok" and abs(sum(be[2][:nal]) - mt) > 1e-8 * mt:
             chk.fail("break-aligned bins sum to the total mass", sp, dict(sum=sum(be[2][:nal]), Mtot=mt),
                      rel_dev=abs(sum(be[2][:nal]) - mt) / mt, bins_match_closed_form=bool(abs(sum(be[2][:nal]) - mt_ref) <= 1e-8 * mt_ref))
+        # array evaluation: element i is what the scalar call gives for mass i (mixed inside / outside masses, every mode)
+        arr_m = [ms[0], mb[0] * 0.5, ms[-1] if len(ms) else mb[0], mb[-1] * 1.7, mb[0], mb[-1]]
+        one_by_one = []
+        for m_ in arr_m:
+            try:
+                one_by_one.append(float(imf(m_)))
+            except ValueError:
+                one_by_one.append("raise")
+        try:
+            arr_out = [float(x) for x in imf(np.array(arr_m, dtype=float))]
+        except ValueError:
+            arr_out = "raise"
+        want_arr = "raise" if "raise" in one_by_one else one_by_one
+        if (arr_out == "raise") != (want_arr == "raise") or (arr_out != "raise" and not np.allclose(arr_out, want_arr, rtol=1e-12, atol=0)):
+            chk.fail({"zeros": "outside-range mode 'zeros' returns 0", "raise": "outside-range mode 'raise' raises ValueError",
+                      "ext": "outside-range mode 'extrapolate' continues the nearest segment"}[sp["ext"]], dict(sp, masses=[float(x) for x in arr_m], form="array"),
+                     dict(array_call=arr_out, scalar_calls=one_by_one))
         snap1 = (np.array(imf.mb, dtype=float), np.array(imf.a, dtype=float), np.array(imf._A_comps, dtype=float), float(imf.N0))
         if not all(np.array_equal(x, y) for x, y in zip(snap0[:3], snap1[:3])) or snap0[3] != snap1[3] or list(mb) != sp["mb"]:
             chk.fail("evaluating an IMF does not change it (breaks, slopes, amplitudes, N0)", sp,
